@@ -30,6 +30,11 @@ impl Rng {
   pub fn fork(&mut self) -> Rng {
     Rng(self.next())
   }
+  /// the k-th independent generator derived from this state (does not advance it)
+  pub fn fork_n(&self, k: u64) -> Rng {
+    let mut r = Rng(self.0 ^ k.wrapping_mul(0xD6E8_FEB8_6659_FD93));
+    Rng(r.next())
+  }
   pub fn shuffle<T>(&mut self, xs: &mut [T]) {
     for i in (1..xs.len()).rev() {
       let j = self.below(i + 1);
